@@ -1,7 +1,71 @@
-//! C18 (to be filled in)
+//! C18 — --fsync flushes every destination file after its last write
+
 use super::*;
-pub fn run(_ctx: &Ctx) -> Report {
-    let mut r = Report::new("model_checking", "not implemented");
-    r.machinery_errors.push("C18 not implemented yet".into());
-    r
+use crate::explore::{explore, Judge};
+use crate::model::{MKind, Origin};
+use crate::monitor;
+use crate::scen::Entry;
+use crate::sup::{Action, Fault};
+use std::sync::Arc;
+
+pub fn copied_files(exp: &Expectation) -> Vec<String> {
+    let mut v: Vec<String> = exp.mapped.iter().filter(|(_, t)| matches!(exp.tree.get(t), Some(n) if n.origin == Origin::Copied && matches!(n.kind, MKind::File(_)))).map(|(_, t)| t.clone()).collect();
+    v.sort();
+    v.dedup();
+    v
+}
+
+pub fn judge(_w: &Worker, scen: &Scenario, ex: &Exec) -> Judgement {
+    let exp = model::expect(scen);
+    let mut v = vec![];
+    if !exit0(ex) {
+        if !ex.res.outcome.is_hang() {
+            v.push(format!("valid copy with --fsync ends with {}", ex.res.outcome.short()));
+        }
+    } else {
+        let files = copied_files(&exp);
+        v.extend(monitor::fsync_after_last_write(&ex.res, &files));
+    }
+    simple_judge(v, ex, exit0(ex))
+}
+
+fn extra_scenarios() -> Vec<(Scenario, Vec<Fault>)> {
+    let mut out = vec![];
+    for d in drivers() {
+        let tree = vec![Entry::dir("src"), Entry::file("src/empty", ""), Entry::file("src/one", "x"), Entry::file("src/nine", "123456789")];
+        let s = Scenario::new(&format!("fsync-empty-{}", d), tree.clone(), &["--fsync", "-r", "--driver", d, "-w", "2", "--block-size", "4", "src", "dst"]);
+        out.push((s.clone(), vec![]));
+        let mut s2 = s.clone();
+        s2.name = format!("fsync-reflinked-{}", d);
+        out.push((s2, vec![Fault { call: "ioctl:FICLONE".into(), thread: None, nth: None, path_contains: None, action: Action::EmulateOk }]));
+        let mut s3 = s.clone();
+        s3.name = format!("fsync-noprogress-{}", d);
+        s3.args.insert(0, "--no-progress".into());
+        out.push((s3, vec![]));
+    }
+    out
+}
+
+pub fn run(ctx: &Ctx) -> Report {
+    let mut rep = Report::new("model_checking", "all executions of the real xcp binary (--fsync) with at most d scheduling deviations from base policies P0 and P1; oracle: in the totally ordered system-call trace every copied regular file has an fsync/fdatasync after its last write-class call (openat O_CREAT|O_TRUNC, ftruncate, copy_file_range, pwrite64, write, FICLONE); non-trivial = exited 0, counted per distinct trace");
+    let j: Judge = &judge;
+    for (name, jobs) in sets::schedule_jobs(ctx.quick(), &|s| if s.args.iter().any(|a| a == "--fsync") { s } else { sets::with_fsync(s) }) {
+        let st = explore(&ctx.pool, jobs, j);
+        rep.part(&name, st, serde_json::json!({"policies": ["P0", "P1"], "flag": "--fsync"}));
+    }
+    let mut jobs = vec![];
+    for (s, faults) in extra_scenarios() {
+        let s = Arc::new(s);
+        for mut b in base_specs() {
+            b.faults = faults.clone();
+            jobs.push((s.clone(), b, if ctx.quick() { 1 } else { 2 }));
+        }
+    }
+    let st = explore(&ctx.pool, jobs, j);
+    rep.part("empty / one-byte / emulated-reflink / --no-progress files", st, serde_json::json!({"d": if ctx.quick() { 1 } else { 2 }}));
+    rep.assumptions = vec![
+        "fsync/fdatasync calls are recorded by the supervisor and answered 0 without reaching the disk (durability itself is the kernel's business)".into(),
+        "pre-emption only at visible system calls and hook markers".into(),
+    ];
+    rep
 }
